@@ -93,6 +93,7 @@ def compare(ips, cps, desc, legacy=False):
 
 def run(rep, tier):
     cx = Ctx(rep, "cranelift")
+    rep.where_by_opcode = cx.opcode_where(cx.roles.cranelift_translate())
     im = imodel.InterpModel(cx)
     cm = clmodel.ClModel(cx)
     if not (im.ok and cm.ok):
